@@ -504,8 +504,17 @@ pub fn c05(x: &str, toks: &[GTok], out: &str, cfg: &Cfg, ctx: &mut Ctx) {
             && tx[i - 1].text(x) == ";"
             && matches!(tx[i + 1].text(x).to_ascii_lowercase().as_str(), "external" | "forward")
     });
+    // a comment between a goto label and its colon: the label is then not recognised
+    let comment_in_label = (2..tx.len().saturating_sub(1)).any(|i| {
+        commentish(&tx[i])
+            && tx[i + 1].kind == Kind::Op(r::Op::Colon)
+            && matches!(tx[i - 1].kind, Kind::Identifier | Kind::Number(_))
+            && (tx[i - 2].text(x) == ";" || matches!(tx[i - 2].text(x).to_ascii_lowercase().as_str(), "begin" | "try" | "except" | "finally" | "repeat" | "else" | "then" | "do"))
+    });
     let fail = |ctx: &mut Ctx, sig: &str, detail: String, anon_in_header: u8| {
-        let sig = if comment_before_external {
+        let sig = if comment_in_label && sig == "statement-placement" {
+            format!("{sig}:comment-between-label-and-colon")
+        } else if comment_before_external {
             format!("{sig}:comment-between-routine-header-and-external-or-forward")
         } else if sig == "declaration-placement" && comment_after_of_object {
             format!("{sig}:break-forcing-comment-after-of-object")
